@@ -32,7 +32,9 @@ func selfBench(boxID string, limit int, prof string) {
 	}
 	seen := map[uint64]uint8{}
 	sm := newSim(true)
-	defer func() { fmt.Printf("sim: execs=%d hits=%d thaws=%d thawFeeds=%d\n", sm.Execs, sm.Hits, sm.Thaws, sm.ThawFeeds) }()
+	defer func() {
+		fmt.Printf("sim: execs=%d hits=%d thaws=%d thawFeeds=%d\n", sm.Execs, sm.Hits, sm.Thaws, sm.ThawFeeds)
+	}()
 	t0 := time.Now()
 	trans := 0
 	if box.Mode == "A" {
